@@ -385,6 +385,12 @@ func (req *SrvReq) Respond() {
 		return
 	}
 
+	if (status&reqFlush) != 0 && req.Rc != nil {
+		/* no reply will be sent: whatever the (recycled) reply buffer
+		   holds is not this request's result and must not be acted on */
+		req.Rc.Type = 0
+	}
+
 	/* remove the request and all requests flushing it */
 	conn.Lock()
 	nextreq := req.prev
